@@ -713,7 +713,37 @@ def _record_state(res, w, obs, history):
     return not any(f.clause == 'C14.valid_iff' for f in found)
 
 
+def validators_case(res, case=None):
+    """a property given as pattern text (matched caselessly) and a property given as a validator object with the same pattern text
+    (case-sensitive), registered in either order in two fresh registries: each keeps its own meaning.  Both expectations are
+    stated in one case, so the verdict does not depend on what the process has validated before."""
+    case = case or {'kind': 'validators'}
+    guard.pristine()
+    res.evaluations += 1
+    res.transitions += 1
+    res.clauses['C14.valid_iff'] += 1
+    got = {}
+    for order in ('text-first', 'object-first'):
+        regs = {}
+        for which in (('text', 'object') if order == 'text-first' else ('object', 'text')):
+            p = P(log=cssutils.log)
+            p.removeProfile(all=True)
+            if which == 'text':
+                p.addProfile('T', {'x-t': 'boom|maybe'}, {})
+                regs['text'] = [bool(p.validate('x-t', v)) for v in ('maybe', 'MAYBE', 'Maybe', 'no')]
+            else:
+                p.addProfile('O', {'x-o': cssutils.util.LazyRegex('^(?:boom|maybe)$')}, {})
+                regs['object'] = [bool(p.validate('x-o', v)) for v in ('maybe', 'MAYBE', 'Maybe', 'no')]
+        got[order] = regs
+    want = {'text': [True, True, True, False], 'object': [True, False, False, False]}
+    res.outcomes.add(h64(jdump(got)))
+    for order, regs in got.items():
+        if regs != want:
+            res.violation('C14.valid_iff', f'pattern-text-and-validator-object-with-the-same-text-influence-each-other|{order}', dict(case, order=order), want, regs)
+
+
 def _seeds(res, tier):
+    validators_case(res)
     for s in ('builtin', 'emptied'):
         for m in CFG[tier]['modes']:
             h = [['seed', s, m]]
@@ -1122,6 +1152,9 @@ def replay(case, tier, seed):
     guard.pristine()
     res = Result(seed)
     case = {k: v for k, v in case.items() if not k.startswith('_')}
+    if case.get('kind') == 'validators':
+        validators_case(res, {'kind': 'validators'})
+        return res
     with guard.watchdog(600):
         for f in judge_case(case, tier, res.clauses):
             _final(res, tier, case, f)
@@ -1155,6 +1188,11 @@ def run(ctx):
     payloads = []
     for full in sorted(prov):
         v = prov[full]
+        if '_symptom' not in v['case']:
+            # a finding that is final as it stands (no history to minimise)
+            total.violations[full] = v
+            total.violation_counts[full] = counts[full]
+            continue
         case = {k: x for k, x in v['case'].items() if not k.startswith('_')}
         payloads.append(['case', case, v['clause'], v['case']['_symptom'], counts[full]])
     total.counters['violation_groups_minimised'] = len(payloads)
